@@ -42,6 +42,12 @@ def _fix():
 FIX = _fix()
 
 MUTATIONS = [
+    # seeded/C11-seed3: responses carrying their own partial IV are struck out of the (request) replay window
+    (
+        "C11",
+        "responses-struck-out-of-replay-window",
+        FIX + [(OS, "        if not is_response and seqno is not None and replay_error is None:\n", "        if seqno is not None and replay_error is None:\n")],
+    ),
     ("C11", "request-piv-not-in-aad", FIX + [(OS, "            request_id.partial_iv,\n            class_i_options,\n", '            b"",\n            class_i_options,\n')]),
     ("C11", "request-kid-not-in-aad", FIX + [(OS, "            request_id.kid,\n            request_id.partial_iv,\n", '            b"",\n            request_id.partial_iv,\n')]),
     (
